@@ -267,3 +267,9 @@ func VerifC02History() {
 	nd.Assert(len(b) == want, "bindings-map-not-grown")
 	nd.Reach("C02.history")
 }
+
+// VerifC02AfterFailure: the output does not depend on earlier activity, failed renders included.
+func VerifC02AfterFailure() {
+	vAfterFailure()
+	nd.Reach("C02.afterfailure")
+}
